@@ -772,6 +772,42 @@ def _t_np_constructors(srcs):
             R().visit(tree)
 
 
+def _t_literal_spellings(srcs):
+    """`[]` -> `list()`, `{}` -> `dict()`, `set([a, b])` -> `{a, b}`, `sorted(x)` -> `sorted(list(x))`, every message of a raise re-worded"""
+    import ast
+
+    class R(ast.NodeTransformer):
+        def visit_List(self, node):
+            self.generic_visit(node)
+            if not node.elts and isinstance(node.ctx, ast.Load):
+                return ast.copy_location(ast.Call(func=ast.Name("list", ast.Load()), args=[], keywords=[]), node)
+            return node
+
+        def visit_Dict(self, node):
+            self.generic_visit(node)
+            if not node.keys:
+                return ast.copy_location(ast.Call(func=ast.Name("dict", ast.Load()), args=[], keywords=[]), node)
+            return node
+
+        def visit_Call(self, node):
+            self.generic_visit(node)
+            if isinstance(node.func, ast.Name) and node.func.id == "set" and len(node.args) == 1 and isinstance(node.args[0], ast.List) and node.args[0].elts and \
+                    not any(isinstance(e, ast.Starred) for e in node.args[0].elts):
+                return ast.copy_location(ast.Set(elts=node.args[0].elts), node)
+            if isinstance(node.func, ast.Name) and node.func.id == "sorted" and len(node.args) == 1 and not node.keywords:
+                node.args = [ast.Call(func=ast.Name("list", ast.Load()), args=[node.args[0]], keywords=[])]
+            return node
+
+        def visit_Raise(self, node):
+            self.generic_visit(node)
+            if isinstance(node.exc, ast.Call) and node.exc.args and isinstance(node.exc.args[0], ast.Constant) and isinstance(node.exc.args[0].value, str):
+                node.exc.args[0] = ast.Constant("Invalid input: " + node.exc.args[0].value)
+            return node
+    for pth, tree in srcs.items():
+        if not pth.endswith("plot.py"):
+            R().visit(tree)
+
+
 def _t_np_operators(srcs):
     """operators spelled as numpy functions where that is the same for every operand the code can see: a @ b -> np.matmul(a, b), np.eye(n) -> np.identity(n)"""
     import ast
@@ -1055,7 +1091,7 @@ def _t_accept_lists(srcs):
                         n.body[k:k] = ast.parse("if not isinstance(%s, np.ndarray):\n    %s = np.array(%s)\n" % (a.arg, a.arg, a.arg)).body
 
 
-TREE_TRANSFORMS = {"@coerce_params": _t_coerce_params, "@accept_lists": _t_accept_lists, "@early_exit": _t_early_exit, "@numpy_alias": _t_numpy_alias, "@kwargs_calls": _t_kwargs_calls, "@strip_docs_annotate": _t_strip_docs_annotate, "@logging": _t_logging, "@traced": _t_traced, "@kwonly": _t_kwonly, "@extra_param": _t_extra_param, "@try_reraise": _t_try_reraise, "@np_functions": _t_np_functions, "@small_idioms": _t_small_idioms, "@flip_comparisons": _t_flip_comparisons, "@else_after_exit": _t_else_after_exit, "@comp_to_loop": _t_comp_to_loop, "@logic_spellings": _t_logic_spellings, "@local_aliases": _t_local_aliases, "@method_spellings": _t_method_spellings, "@statement_spellings": _t_statement_spellings, "@loop_spellings": _t_loop_spellings, "@import_styles": _t_import_styles, "@np_constructors": _t_np_constructors, "@np_operators": _t_np_operators, "@private_module": _t_private_module, "@swap_branches": _t_swap_branches, "@name_conditions": _t_name_conditions, "@ternary_to_if": _t_ternary_to_if,
+TREE_TRANSFORMS = {"@coerce_params": _t_coerce_params, "@accept_lists": _t_accept_lists, "@early_exit": _t_early_exit, "@numpy_alias": _t_numpy_alias, "@kwargs_calls": _t_kwargs_calls, "@strip_docs_annotate": _t_strip_docs_annotate, "@logging": _t_logging, "@traced": _t_traced, "@kwonly": _t_kwonly, "@extra_param": _t_extra_param, "@try_reraise": _t_try_reraise, "@np_functions": _t_np_functions, "@small_idioms": _t_small_idioms, "@flip_comparisons": _t_flip_comparisons, "@else_after_exit": _t_else_after_exit, "@comp_to_loop": _t_comp_to_loop, "@logic_spellings": _t_logic_spellings, "@local_aliases": _t_local_aliases, "@method_spellings": _t_method_spellings, "@statement_spellings": _t_statement_spellings, "@loop_spellings": _t_loop_spellings, "@import_styles": _t_import_styles, "@np_constructors": _t_np_constructors, "@literal_spellings": _t_literal_spellings, "@np_operators": _t_np_operators, "@private_module": _t_private_module, "@swap_branches": _t_swap_branches, "@name_conditions": _t_name_conditions, "@ternary_to_if": _t_ternary_to_if,
                    "@shim": _t_shim}
 
 
